@@ -108,11 +108,14 @@ def run_score(cfg):
         est = _mk(qr, q)
         est.predict = lambda X: f  # LinearModel.predict contract: X @ coef_ + intercept_ (stub)
         X = e.reals("X", n, 1)
-        mae = lambda yt, yp, sample_weight=None: (  # noqa: E731  documented contract of sklearn's MAE
-            (abs(yt - yp) * sample_weight).sum() / sample_weight.sum() if sample_weight is not None else abs(yt - yp).sum() / len(yt)
-        )
+        def mae(yt, yp, sample_weight=None):
+            # documented contract of sklearn's MAE: (n,) and (n, 1) targets are the same single-output problem
+            yt, yp = numpy.asarray(yt, dtype=object).reshape(-1).view(sx.SArr), numpy.asarray(yp, dtype=object).reshape(-1).view(sx.SArr)
+            return (abs(yt - yp) * sample_weight).sum() / sample_weight.sum() if sample_weight is not None else abs(yt - yp).sum() / len(yt)
+
         with harness.patched(qr, numpy=_NP(), mean_absolute_error=mae):
-            s = est.score(X, y, sample_weight=w)
+            # "y: array-like, shape = (n_samples) or (n_samples, n_outputs)": a column target is the same problem
+            s = est.score(X, y.reshape(-1, 1) if cfg.get("column") else y, sample_weight=w)
         qq = Fraction(1, 2) if half else q
         tot = sx.ssum([(w[i] if weighted else 1) * _rho(y[i] - f[i], qq) for i in range(n)])
         den = sx.ssum(list(w)) if weighted else n
@@ -144,7 +147,7 @@ def replay_score(cfg, inputs, label):
     est.coef_ = numpy.array([1.0])
     est.intercept_ = 0.0
     X = f.reshape(-1, 1)
-    s = float(est.score(X, y, sample_weight=w))
+    s = float(est.score(X, y.reshape(-1, 1) if cfg.get("column") else y, sample_weight=w))
     u = y - f
     rho = q * numpy.maximum(u, 0) + (1 - q) * numpy.maximum(-u, 0)
     ww = w if w is not None else numpy.ones(n)
@@ -481,6 +484,8 @@ def configs(tier):
                 if n >= 4 and weighted and not half:
                     continue  # trilinear w*q*|u| over 4 rows: z3 nlsat does not finish in 30 s (stated bound: n <= 3 there)
                 out.append(dict(kind="score", n=n, weighted=weighted, half=half))
+                if half and n == 2:
+                    out.append(dict(kind="score", n=n, weighted=weighted, half=half, column=True))
     # plumbing: symbolic design matrix, one least-squares call
     for n, d in ((2, 1), (3, 1)) if tier == "quick" else ((2, 1), (3, 1), (2, 2), (3, 2)):
         for weighted in (False, True):
